@@ -35,7 +35,84 @@ def run_property(pid, tier, root):
     except Exception as e:      # an internal error is never a verdict
         tb = traceback.format_exc().strip().splitlines()
         rep.unresolved('ENGINE', 'internal-error', '-', f'{type(e).__name__}: {e} | ' + ' | '.join(tb[-6:]))
+    if tier == 'thorough' and not os.environ.get('VERIF_NO_SELFTEST') and not os.environ.get('VERIF_NO_EVIDENCE'):
+        try:
+            rep.notes['sensitivity_selftest'] = selftest(pid, root)
+        except Exception as e:  # the self-test is information about the checker, never a verdict about the tree
+            rep.notes['sensitivity_selftest'] = {'error': f'{type(e).__name__}: {e}'}
     return rep.finish()
+
+
+def _variant_verdict(job):
+    """Run the quick rules of one property on a scratch copy of the tree with one stored patch applied (in a worker process)."""
+    pid, root, patch = job
+    import shutil
+    import subprocess
+    import tempfile
+    tmp = tempfile.mkdtemp(prefix='verif-selftest-')
+    try:
+        shutil.copytree(os.path.join(root, 'bycycle'), os.path.join(tmp, 'bycycle'),
+                        ignore=shutil.ignore_patterns('__pycache__', 'tests', '*.pyc'))
+        p = subprocess.run(['git', 'apply', '--exclude=bycycle/tests/*', patch], cwd=tmp, capture_output=True, text=True)
+        if p.returncode != 0:
+            return patch, {'applies': False}
+        sub = Report(pid, 'quick', tmp)
+        try:
+            model = engine.repo_model(tmp)
+            importlib.import_module(f'sa.rules.{pid.lower()}').check(sub, model, 'quick')
+        except Exception as e:
+            return patch, {'applies': True, 'error': f'{type(e).__name__}: {e}'}
+        viol = sorted({i['rule'] for i in sub.instances if i['status'] == 'violated'})
+        unres = sorted({i['rule'] for i in sub.instances if i['status'] == 'unresolved'})
+        return patch, {'applies': True, 'violated_rules': viol, 'unresolved_rules': unres}
+    finally:
+        shutil.rmtree(tmp, ignore_errors=True)
+
+
+def selftest(pid, root):
+    """Sensitivity of this property's rules, measured on every run of the thorough tier against the *current* tree:
+    each stored property-breaking patch (seeded/<pid>-*) must make the rules fire, each stored behaviour-preserving
+    refactor (benign/<pid>-*) must leave them silent.  Patches that no longer apply to the current tree are skipped.
+    The outcome is reported in the evidence and on stdout; it never changes the verdict about the tree."""
+    import glob
+    import json
+    from concurrent.futures import ProcessPoolExecutor
+    verif = os.path.dirname(HERE)
+    residual = {}
+    rp = os.path.join(verif, 'benign', 'RESIDUAL.json')
+    if os.path.exists(rp):
+        residual = json.load(open(rp))
+    seeded = sorted(glob.glob(os.path.join(verif, 'seeded', f'{pid}-*', 'patch.diff')))
+    benign = sorted(glob.glob(os.path.join(verif, 'benign', f'{pid}-*', 'patch.diff')))
+    jobs = [(pid, root, p) for p in seeded + benign]
+    out = {'seeded': {}, 'benign': {}}
+    if not jobs:
+        return out
+    with ProcessPoolExecutor(min(8, len(jobs))) as ex:
+        results = dict(ex.map(_variant_verdict, jobs))
+    det = tot = sil = btot = 0
+    for p in seeded:
+        r = results[p]
+        name = os.path.basename(os.path.dirname(p))
+        out['seeded'][name] = r
+        if r.get('applies') and 'error' not in r:
+            tot += 1
+            det += bool(r['violated_rules'])
+    for p in benign:
+        r = results[p]
+        name = os.path.basename(os.path.dirname(p))
+        if name in residual:
+            r['documented_residual_false_alarm'] = residual[name]
+        out['benign'][name] = r
+        if r.get('applies') and 'error' not in r:
+            btot += 1
+            sil += not r['violated_rules'] and not r['unresolved_rules']
+    out['summary'] = f'seeded breaking patches detected {det}/{tot}; behaviour-preserving refactors silent {sil}/{btot}'
+    print(f'SELFTEST property={pid} {out["summary"]}')
+    for name, r in list(out['seeded'].items()):
+        if r.get('applies') and 'error' not in r and not r['violated_rules']:
+            print(f'SELFTEST-WARNING property={pid} seeded patch {name} is not detected on this tree')
+    return out
 
 
 def main():
